@@ -46,7 +46,9 @@ def prune_cache(keep=3):
     recently used few, remove the rest"""
     import shutil
     root = os.path.join(ROOT, ".cache", "numba"); cur = cache_key()
-    try: ds = [d for d in os.listdir(root) if os.path.isdir(os.path.join(root, d)) and len(d) == 10 and all(ch in "0123456789abcdef" for ch in d) and d != cur]
+    # never the directory warmed by setup (it holds warm_stamp.json): the unchanged tree must stay warm whatever other trees were checked in between
+    try: ds = [d for d in os.listdir(root) if os.path.isdir(os.path.join(root, d)) and len(d) == 10 and all(ch in "0123456789abcdef" for ch in d) and d != cur
+               and not os.path.exists(os.path.join(root, d, "warm_stamp.json"))]
     except OSError: return
     ds.sort(key=lambda d: os.path.getmtime(os.path.join(root, d)), reverse=True)
     for d in ds[keep:]: shutil.rmtree(os.path.join(root, d), ignore_errors=True)
@@ -64,6 +66,8 @@ def cache_is_cold():
 def hygiene(rank=0):
     os.environ["NUMBA_CACHE_DIR"] = os.path.join(cache_root(), f"r{rank}")
     os.makedirs(os.environ["NUMBA_CACHE_DIR"], exist_ok=True)
+    try: os.utime(cache_root())          # "recently used" for prune_cache
+    except OSError: pass
     os.environ.setdefault("GROUPBY_LIB_VERIF", "1")
     os.environ.setdefault("NUMBA_NUM_THREADS", "2")      # 16 worker processes x numba's default 16 prange threads oversubscribes the machine 16-fold
     if REPO not in sys.path: sys.path.insert(0, REPO)
